@@ -701,12 +701,19 @@ start:
 	}
 
 	processPhis := func(b *ir.BasicBlock, i int, s state) state {
+		// The phis of a block are evaluated in parallel: a phi that has
+		// another phi of the same block as its operand sees the value from
+		// before the edge was taken.
+		var vals []ValueNilness
 		for _, instr := range b.Instrs {
 			if instr, ok := instr.(*ir.Phi); ok {
-				s.set(instr, s.get(instr.Edges[i]))
+				vals = append(vals, s.get(instr.Edges[i]))
 			} else {
 				break
 			}
+		}
+		for j, val := range vals {
+			s.set(b.Instrs[j].(*ir.Phi), val)
 		}
 		return s
 	}
